@@ -89,6 +89,16 @@ def check(c):
             if off > 0: expect(abs(dq - off) <= 1e-7, sig('post[C19]:distance-on-or-above-the-surface-is-the-vertical-offset'), f"offset {off}: distance {dq}")
             elif off < 0: expect(dq < 0, sig('post[C19]:distance-below-the-surface-is-negative'), f"offset {off}: distance {dq}")
             else: expect(abs(dq) <= 1e-7, sig('post[C19]:distance-on-the-surface-is-zero'), f"{dq}")
+    # one batch mixing points above, on and below the surface at different positions: every entry is the entry of the point scored alone (scores do not depend on the batch)
+    qs = np.array([rng.dirichlet(np.ones(len(sel))) @ P[sel] for _ in range(6)]); offs = np.array([0.4, -0.3, 0.0, -0.05, 0.7, -0.6])
+    es = np.array([envelope(P, y, q) for q in qs])
+    Xb = np.zeros((6, ncol)); Xb[:, low_idx] = qs
+    with warnings.catch_warnings():
+        warnings.simplefilter('ignore')
+        db = np.asarray(dch.score_samples(Xb, es + offs), float)
+        d1 = np.array([float(dch.score_samples(np.vstack([Xb[t:t + 1], Xb[t:t + 1]]), np.array([es[t] + offs[t]] * 2))[0]) for t in range(6)])
+    expect(np.allclose(db, d1, atol=1e-9), sig('post[C19]:distance-of-a-sample-does-not-depend-on-the-other-samples-scored-with-it'), f"batch {db.tolist()} alone {d1.tolist()}")
+    expect(np.all(db[offs < 0] < 0) and np.allclose(db[offs > 0], offs[offs > 0], atol=1e-7), sig('post[C19]:batch:negative-below-the-surface-and-vertical-offset-above-it'), f"{db.tolist()} for offsets {offs.tolist()}")
     # adding samples strictly above the hull; positive affine change of y
     k = 3; Pa = np.array([rng.dirichlet(np.ones(len(sel))) @ P[sel] for _ in range(k)]); ya = np.array([envelope(P, y, q) for q in Pa]) + rng.uniform(0.1, 1.0, k)
     X2 = np.zeros((n + k, ncol)); X2[:n] = X; X2[n:, low_idx] = Pa
